@@ -1,6 +1,7 @@
 package main
 
 import (
+	"go/constant"
 	"go/token"
 	"bytes"
 	"crypto/sha1"
@@ -33,6 +34,8 @@ type Engine struct {
 	callees    map[*ssa.Function][]*ssa.Function
 	reachCache map[*ssa.Function]map[*ssa.Function]bool
 
+	kf []kfEntry
+
 	Tier     string
 	TimeoutQ int // ms per check, first pass
 	TimeoutR int // ms per check, retries
@@ -44,6 +47,70 @@ type Engine struct {
 }
 
 type mapEntry struct{ K, V *ssa.Const }
+
+type kfEntry struct {
+	Key    string
+	Fn     *ssa.Function
+	Parens bool
+}
+
+// kfTable reads the map literal built by the closure initKnownFunctions hands to sync.Once.Do.
+func (E *Engine) kfTable() []kfEntry {
+	if E.kf != nil {
+		return E.kf
+	}
+	fn := E.P.Funcs["pql.initKnownFunctions$1"]
+	if fn == nil {
+		return nil
+	}
+	var out []kfEntry
+	for _, b := range fn.Blocks {
+		for _, in := range b.Instrs {
+			u, ok := in.(*ssa.MapUpdate)
+			if !ok {
+				continue
+			}
+			kc, ok := u.Key.(*ssa.Const)
+			if !ok {
+				return nil
+			}
+			al, ok := u.Value.(*ssa.Alloc)
+			if !ok {
+				return nil
+			}
+			e := kfEntry{Key: constant.StringVal(kc.Value)}
+			for _, ref := range *al.Referrers() {
+				fa, ok := ref.(*ssa.FieldAddr)
+				if !ok {
+					continue
+				}
+				for _, r2 := range *fa.Referrers() {
+					st, ok := r2.(*ssa.Store)
+					if !ok {
+						continue
+					}
+					switch v := st.Val.(type) {
+					case *ssa.Function:
+						e.Fn = v
+					case *ssa.Const:
+						if v.Value != nil && v.Value.Kind() == constant.Bool {
+							e.Parens = constant.BoolVal(v.Value)
+						}
+					default:
+						return nil
+					}
+				}
+			}
+			if e.Fn == nil {
+				return nil
+			}
+			out = append(out, e)
+		}
+	}
+	sort.Slice(out, func(i, j int) bool { return out[i].Key < out[j].Key })
+	E.kf = out
+	return out
+}
 
 func (E *Engine) globalMapEntries(g *ssa.Global) []mapEntry {
 	init := g.Pkg.Func("init")
